@@ -184,3 +184,14 @@ func (rw *RemoteWrapper) Exists(ctx context.Context, path string, key string) (b
 	// Check if the file exists in the remote cache
 	return rw.remote.Exists(ctx, path, key)
 }
+
+// ExistsEverywhere checks if a file exists in both the local file system cache and the remote cache.
+// Callers use it to decide whether a Set can be skipped (see FullExistenceChecker).
+func (rw *RemoteWrapper) ExistsEverywhere(ctx context.Context, path string, key string) (bool, error) {
+	localExists, err := rw.fs.Exists(ctx, path, key)
+	if err != nil || !localExists {
+		return false, err
+	}
+
+	return rw.remote.Exists(ctx, path, key)
+}
